@@ -27,10 +27,12 @@ import (
 	"os"
 	"path/filepath"
 	"regexp"
+	"regexp/syntax"
 	"sort"
 	"strings"
 	"sync"
 	"time"
+	"unicode"
 	"unicode/utf8"
 
 	"vh/core"
@@ -82,14 +84,36 @@ type c19PathSet struct {
 	Paths []string `json:"paths"`
 }
 
-// c19Ref is the standard-library reference for one :skip pattern.
+// c19Ref is the standard-library reference for one :skip pattern. The two regexps are compiled
+// on first use (compiling (?i) over large Unicode classes is the expensive part of the oracle).
 type c19Ref struct {
 	isRe      bool
 	valid     bool
 	undecided bool // validity differs between the two case rules: the oracle abstains
 	plain     string
+	body      string
 	reExact   *regexp.Regexp
 	reFold    *regexp.Regexp
+}
+
+// c19RefCache memoises references per goroutine (one per batch).
+type c19RefCache map[string]*c19Ref
+
+func (rc c19RefCache) get(pattern string) *c19Ref {
+	if rc == nil {
+		return c19NewRef(pattern)
+	}
+	if r, ok := rc[pattern]; ok {
+		return r
+	}
+	if len(rc) > 200_000 {
+		for k := range rc {
+			delete(rc, k)
+		}
+	}
+	r := c19NewRef(pattern)
+	rc[pattern] = r
+	return r
 }
 
 func c19NewRef(pattern string) *c19Ref {
@@ -100,12 +124,16 @@ func c19NewRef(pattern string) *c19Ref {
 		return r
 	}
 	r.isRe = true
-	body := pattern[1 : len(pattern)-1]
-	var e1, e2 error
-	r.reExact, e1 = regexp.Compile(body)
-	r.reFold, e2 = regexp.Compile("(?i)" + body)
-	r.valid = e1 == nil && e2 == nil
-	r.undecided = (e1 == nil) != (e2 == nil)
+	r.body = pattern[1 : len(pattern)-1]
+	// validity is decided by the parser alone (cheap); the prefix (?i) can only matter for size limits
+	_, e1 := syntax.Parse(r.body, syntax.Perl)
+	r.valid = e1 == nil
+	if r.valid {
+		var err error
+		if r.reExact, err = regexp.Compile(r.body); err != nil {
+			r.valid, r.undecided = false, true
+		}
+	}
 	return r
 }
 
@@ -118,6 +146,14 @@ func (r *c19Ref) match(path string, exact bool) bool {
 	}
 	if exact {
 		return r.reExact.MatchString(path)
+	}
+	if r.reFold == nil {
+		re, err := regexp.Compile("(?i)" + r.body)
+		if err != nil {
+			r.undecided = true // (?i) form not compilable although the body is: the oracle abstains
+			return false
+		}
+		r.reFold = re
 	}
 	return r.reFold.MatchString(path)
 }
@@ -431,13 +467,13 @@ func c19Want(c *c19Case, q *c19Query, refs []*c19Ref) bool {
 	return false
 }
 
-func c19Refs(c *c19Case) []*c19Ref {
+func c19Refs(c *c19Case, rc c19RefCache) []*c19Ref {
 	if c.Kind != "pattern" && c.Kind != "skip" {
 		return nil
 	}
-	refs := []*c19Ref{c19NewRef(c.Pattern)}
+	refs := []*c19Ref{rc.get(c.Pattern)}
 	for _, p := range c.More {
-		refs = append(refs, c19NewRef(p))
+		refs = append(refs, rc.get(p))
 	}
 	return refs
 }
@@ -456,8 +492,8 @@ func c19KindOf(c *c19Case, refs []*c19Ref) string {
 }
 
 // c19SymptomsOf returns the symptom of the constructor ("" if fine) and of every query.
-func c19SymptomsOf(c *c19Case, o *c19Out) (ctor string, qs []string, wants []bool) {
-	refs := c19Refs(c)
+func c19SymptomsOf(c *c19Case, o *c19Out, rc c19RefCache) (ctor string, qs []string, wants []bool) {
+	refs := c19Refs(c, rc)
 	ctor, proceed := c19CtorSymptom(c, o, refs)
 	if !proceed {
 		return ctor, nil, nil
@@ -483,6 +519,11 @@ func c19SymptomsOf(c *c19Case, o *c19Out) (ctor string, qs []string, wants []boo
 			}
 		}
 	}
+	for _, r := range refs {
+		if r.undecided {
+			return "", nil, nil
+		}
+	}
 	return ctor, qs, wants
 }
 
@@ -496,10 +537,10 @@ func c19Bool01(b bool) string {
 // judgeExplicit judges a case with an explicit query list (parts b, c, m); every query is treated
 // as a fresh-object observation only when the case has a single case rule throughout
 // (no history), otherwise only through its fresh twins.
-func (x *c19Ctx) judgeExplicit(c *c19Case, o *c19Out, dk map[string]bool) {
-	refs := c19Refs(c)
+func (x *c19Ctx) judgeExplicit(c *c19Case, o *c19Out, dk map[string]bool, rc c19RefCache) {
+	refs := c19Refs(c, rc)
 	kind := c19KindOf(c, refs)
-	ctor, qs, wants := c19SymptomsOf(c, o)
+	ctor, qs, wants := c19SymptomsOf(c, o, rc)
 	x.rep.Eval(1 + len(qs))
 	pats := append([]string{c.Pattern}, c.More...)
 	origin := fmt.Sprintf("kind=%s patterns=%q pattern2=%q exact_ctor=%v", c.Kind, pats, c.Pattern2, c.ExactCtor)
@@ -595,6 +636,9 @@ func (x *c19Ctx) judgeSet(c *c19Case, o *c19Out, dk map[string]bool) {
 			}
 			wrong[col/64] |= 1 << uint(col%64)
 		}
+	}
+	if ref.undecided {
+		return
 	}
 	for l := range seenLen {
 		for w := 0; w < 2; w++ {
@@ -761,9 +805,9 @@ func (x *c19Ctx) runScope(s *c19Scope) {
 	x.minimalFails(s)
 }
 
-// runExplicit runs explicit-query cases in batches of at most 50 000 and judges them.
+// runExplicit runs explicit-query cases in batches of about 4 000 (so that all cores are used) and judges them.
 func (x *c19Ctx) runExplicit(label string, cases []*c19Case) {
-	const per = 50_000
+	const per = 4_000
 	var batches [][]*c19Case
 	for i := 0; i < len(cases); {
 		j := i + per
@@ -784,13 +828,14 @@ func (x *c19Ctx) runExplicit(label string, cases []*c19Case) {
 			x.rep.Inconclusive("part " + label + ": " + err.Error())
 		}
 		dk := map[string]bool{}
+		rc := c19RefCache{}
 		outOf := map[*c19Case]*c19Out{}
 		for i, c := range b {
 			if outs[i] == nil {
 				continue
 			}
 			outOf[c] = outs[i]
-			x.judgeExplicit(c, outs[i], dk)
+			x.judgeExplicit(c, outs[i], dk, rc)
 		}
 		// history independence: answer k of a sequence == answer of its fresh twin
 		for _, c := range b {
@@ -826,7 +871,7 @@ func (x *c19Ctx) historyViolation(c *c19Case, so, fo *c19Out, what string) {
 	if what == "" {
 		what = fmt.Sprintf("query %d of the sequence answered %q, the same query on a fresh matcher answered %q", c.seqIdx, so.Ans, fo.Ans)
 	}
-	kind := c19KindOf(c, c19Refs(c))
+	kind := c19KindOf(c, c19Refs(c, nil))
 	x.rep.Violate(&core.Violation{Property: "C19", Monitor: "optprobe", Symptom: "history-dependent-answer",
 		Features: map[string]string{"api": c19APIName[c.Kind], "kind": kind},
 		Case:     fmt.Sprintf("seq#%d/%d", seq.ID, c.seqIdx),
@@ -857,6 +902,8 @@ type c19Shrink struct {
 	cands []c19State
 	phase int
 	alias *c19Shrink // merged into another problem with the same state
+	got   string     // observation on the current (shrunk) state
+	want  string
 }
 
 func (st c19State) size() int {
@@ -983,7 +1030,7 @@ func (x *c19Ctx) shrinkAll(fails []*c19Fail) map[*c19Fail]c19State {
 		st := c19State{patterns: f.Patterns, pattern2: f.Pattern2, path: f.Path, path2: f.Path2, hasQuery: f.HasQuery}
 		res[f] = st
 		if !f.Minimal {
-			sh := &c19Shrink{f: f, cur: st}
+			sh := &c19Shrink{f: f, cur: st, phase: -1}
 			all = append(all, sh)
 			live = append(live, sh)
 		}
@@ -1012,10 +1059,15 @@ func (x *c19Ctx) shrinkAll(fails []*c19Fail) map[*c19Fail]c19State {
 			}
 			var cases []*c19Case
 			for _, sh := range live[lo:hi] {
-				if sh.phase == 0 {
+				switch sh.phase {
+				case -1:
+					sh.cands = c19IsolateCandidates(sh.cur)
+				case 0:
 					sh.cands = c19Candidates(sh.cur, sh.f.ProbeKind)
-				} else {
+				case 1:
 					sh.cands = c19PairCandidates(sh.cur)
+				default:
+					sh.cands = c19CanonCandidates(sh.cur)
 				}
 				for k, cand := range sh.cands {
 					c := c19StateCase(sh.f, cand)
@@ -1031,12 +1083,14 @@ func (x *c19Ctx) shrinkAll(fails []*c19Fail) map[*c19Fail]c19State {
 			if err != nil {
 				x.rep.Inconclusive("shrink: " + err.Error())
 			}
+			rc := c19RefCache{}
 			best := map[*c19Shrink]int{}
+			bestCase := map[*c19Shrink]int{}
 			for i, c := range cases {
 				if outs[i] == nil {
 					continue
 				}
-				ctor, qs, _ := c19SymptomsOf(c, outs[i])
+				ctor, qs, _ := c19SymptomsOf(c, outs[i], rc)
 				sym := ctor
 				if sym == "" && len(qs) > 0 {
 					sym = qs[0]
@@ -1046,6 +1100,7 @@ func (x *c19Ctx) shrinkAll(fails []*c19Fail) map[*c19Fail]c19State {
 				}
 				if k, ok := best[c.shrink]; !ok || c.candIdx < k {
 					best[c.shrink] = c.candIdx
+					bestCase[c.shrink] = i
 				}
 			}
 			for i, sh := range live[lo:hi] {
@@ -1053,6 +1108,15 @@ func (x *c19Ctx) shrinkAll(fails []*c19Fail) map[*c19Fail]c19State {
 					sh.cur = sh.cands[k]
 					sh.phase = 0
 					progressed[lo+i] = true
+					c, o := cases[bestCase[sh]], outs[bestCase[sh]]
+					if _, qs, wants := c19SymptomsOf(c, o, rc); len(qs) > 0 && len(o.Ans) > 0 {
+						sh.got, sh.want = string(o.Ans[0]), c19Bool01(wants[0])
+						if p, ok := o.Panics["0"]; ok {
+							sh.got = "panic: " + p
+						}
+					} else {
+						sh.got = "ctor_err=" + o.CtorErr + " ctor_panic=" + o.CtorPanic
+					}
 				}
 			}
 		})
@@ -1061,10 +1125,13 @@ func (x *c19Ctx) shrinkAll(fails []*c19Fail) map[*c19Fail]c19State {
 			switch {
 			case progressed[i]:
 				next = append(next, sh)
-			case sh.phase == 0:
-				sh.phase = 1
+			case sh.phase < 2:
+				sh.phase++
 				next = append(next, sh)
 			}
+		}
+		if os.Getenv("VERIF_DEBUG") != "" {
+			fmt.Fprintf(os.Stderr, "[c19 %6.1fs] shrink round %d: %d problems, %d remain\n", time.Since(x.e.Start).Seconds(), round, len(live), len(next))
 		}
 		live = next
 	}
@@ -1074,8 +1141,100 @@ func (x *c19Ctx) shrinkAll(fails []*c19Fail) map[*c19Fail]c19State {
 			r = r.alias
 		}
 		res[sh.f] = r.cur
+		if r.got != "" {
+			sh.f.Got, sh.f.Want = r.got, r.want
+		}
 	}
 	return res
+}
+
+// c19IsolateCandidates is the first, most aggressive step: one unit of the pattern alone against
+// one rune of the path (then against the whole path). Most failures are caused by one construct.
+func c19IsolateCandidates(st c19State) []c19State {
+	if !st.hasQuery || len(st.patterns) == 0 {
+		return nil
+	}
+	var out []c19State
+	rs := []rune(st.path)
+	var singles []string
+	seen := map[string]bool{}
+	for _, c := range rs {
+		if !seen[string(c)] {
+			seen[string(c)] = true
+			singles = append(singles, string(c))
+		}
+	}
+	for _, p := range st.patterns {
+		isRe := c19IsRegexpForm(p)
+		body := p
+		if isRe {
+			body = p[1 : len(p)-1]
+		}
+		seenU := map[string]bool{}
+		for _, u := range c19Units(body) {
+			if seenU[u] || u == "/" && !isRe {
+				continue
+			}
+			seenU[u] = true
+			np := u
+			if isRe {
+				np = "/" + u + "/"
+			}
+			for _, one := range append(append([]string{}, singles...), st.path) {
+				if len(out) >= 240 {
+					return out
+				}
+				n := st
+				n.patterns = []string{np}
+				n.path = one
+				if n.size() < st.size() {
+					out = append(out, n)
+				}
+			}
+		}
+	}
+	return out
+}
+
+// c19CanonCandidates replaces single characters by 'a' (path runes, and letter/digit literals of
+// the pattern outside escapes) so that incidental characters do not show up in the cause.
+func c19CanonCandidates(st c19State) []c19State {
+	var out []c19State
+	if st.hasQuery {
+		rs := []rune(st.path)
+		for i, c := range rs {
+			if c != 'a' {
+				n := st
+				n.path = string(rs[:i]) + "a" + string(rs[i+1:])
+				out = append(out, n)
+			}
+		}
+	}
+	for pi, p := range st.patterns {
+		isRe := c19IsRegexpForm(p)
+		body := p
+		if isRe {
+			body = p[1 : len(p)-1]
+		}
+		us := c19Units(body)
+		for i, u := range us {
+			rs := []rune(u)
+			if len(rs) != 1 || rs[0] == 'a' || !(unicode.IsLetter(rs[0]) || unicode.IsDigit(rs[0])) {
+				continue
+			}
+			nb := strings.Join(us[:i], "") + "a" + strings.Join(us[i+1:], "")
+			if isRe {
+				nb = "/" + nb + "/"
+			}
+			n := st
+			n.patterns = append(append(append([]string{}, st.patterns[:pi]...), nb), st.patterns[pi+1:]...)
+			out = append(out, n)
+		}
+	}
+	if len(out) > 60 {
+		out = out[:60]
+	}
+	return out
 }
 
 // report shrinks the collected fails and turns them into violations (at most 3 per fingerprint).
@@ -1084,6 +1243,7 @@ func (x *c19Ctx) report() {
 	shrunk := x.shrinkAll(x.fails)
 	perFP := map[string]int{}
 	seenMin := map[string]bool{}
+	var vs []*core.Violation
 	for _, f := range x.fails {
 		st := shrunk[f]
 		var paths []string
@@ -1091,12 +1251,22 @@ func (x *c19Ctx) report() {
 			paths = []string{st.path, st.path2}
 		}
 		cause := c19Cause(append(append([]string{}, st.patterns...), st.pattern2), paths...)
-		feat := map[string]string{"api": f.API, "kind": f.Kind, "cause": cause}
+		kind := f.Kind
 		if f.ProbeKind == "pattern" || f.ProbeKind == "skip" {
-			feat["ctor_case"] = map[bool]string{true: "on", false: "off"}[f.CtorExact]
+			kind = "plain"
+			for _, p := range st.patterns {
+				if c19IsRegexpForm(p) {
+					kind = "regexp"
+				}
+			}
 		}
+		feat := map[string]string{"api": f.API, "kind": kind, "cause": cause}
 		if f.HasQuery {
 			feat["case"] = map[bool]string{true: "on", false: "off"}[f.Exact]
+		}
+		// the constructor's case rule is part of the class only where it is the trigger
+		if (f.ProbeKind == "pattern" || f.ProbeKind == "skip") && f.Symptom != "wrong-answer" {
+			feat["ctor_case"] = map[bool]string{true: "on", false: "off"}[f.CtorExact]
 		}
 		c := c19StateCase(f, st)
 		c.Op = "case"
@@ -1107,11 +1277,30 @@ func (x *c19Ctx) report() {
 			continue
 		}
 		seenMin[minKey] = true
-		v := &core.Violation{Property: "C19", Monitor: "optprobe", Symptom: f.Symptom, Features: feat,
+		vs = append(vs, &core.Violation{Property: "C19", Monitor: "optprobe", Symptom: f.Symptom, Features: feat,
 			Case: fmt.Sprintf("%s:%s", f.Part, core.Hash(string(cb))),
 			Detail: fmt.Sprintf("minimal input: %s\nobserved: %s   reference: %s\nfound in part (%s) from: %s", cb, f.Got,
 				map[bool]string{true: f.Want, false: "constructor outcome per regexp.Compile"}[f.HasQuery], f.Part, f.Origin),
-			Files: map[string]string{"cases.jsonl": string(cb) + "\n", "optprobe_main.go": c19ProbeSrc, "README.txt": c19ReplayReadme}}
+			Files: map[string]string{"cases.jsonl": string(cb) + "\n", "optprobe_main.go": c19ProbeSrc, "README.txt": c19ReplayReadme}})
+	}
+	// Options.ShouldSkip only iterates PatternMatcher.Match: its violations are reported only when
+	// the same class was not observed on PatternMatcher.Match itself in this run.
+	direct := map[string]bool{}
+	for _, v := range vs {
+		if v.Features["api"] == c19APIName["pattern"] {
+			direct[v.Fingerprint()] = true
+		}
+	}
+	for _, v := range vs {
+		if v.Features["api"] == c19APIName["skip"] {
+			v.Features["api"] = c19APIName["pattern"]
+			sub := direct[v.Fingerprint()]
+			v.Features["api"] = c19APIName["skip"]
+			if sub {
+				x.rep.Count("shouldskip_violations_explained_by_patternmatcher_class", 1)
+				continue
+			}
+		}
 		fp := v.Fingerprint()
 		perFP[fp]++
 		if perFP[fp] <= 3 {
@@ -1300,13 +1489,14 @@ func (x *c19Ctx) runM(n int) {
 		x.rep.Inconclusive("part m: " + err.Error())
 	}
 	dk := map[string]bool{}
+	rc := c19RefCache{}
 	for i, c := range cases {
 		o := outs[i]
 		if o == nil {
 			continue
 		}
 		if c.PathSet == "" {
-			x.judgeExplicit(c, o, dk)
+			x.judgeExplicit(c, o, dk, rc)
 			continue
 		}
 		// expand to explicit queries for the shared judge (small: |all| queries)
@@ -1315,7 +1505,7 @@ func (x *c19Ctx) runM(n int) {
 		for _, p := range all {
 			cc.Queries = append(cc.Queries, c19Query{Path: p, Exact: c.Exact})
 		}
-		x.judgeExplicit(&cc, o, dk)
+		x.judgeExplicit(&cc, o, dk, rc)
 	}
 	x.markDistinct(dk)
 }
